@@ -6,7 +6,7 @@ from .. import roles
 ID = 'C13'
 LEVEL = 'other'
 EXPLANATION = ('Static rules: Z1 every pipeline builder (each provided ObservableExt method, each public constructor in observable::*, each '
-               '*Op::new) performs no work — no subscribe, no downstream call, no scheduling, no user-closure call, no timer, no future poll '
+               '*Op::new) performs no work — no subscribe, no downstream call, no scheduling, no user-closure call, no timer, no future poll, no into_iter()/Iterator call on a user-supplied argument '
                '(tabled: to_future/to_stream/subscribe* subscribe by contract; the _at forms read the clock); Z2 the deferred factories of '
                'defer/of_fn/start/create are called exactly once on every path of actual_subscribe and are bound FnOnce; Z3 no operator or cold '
                'source value holds shared state (no Rc/Arc/MutRc/MutArc/RefCell/Mutex/Cell field outside its type parameters) and every '
@@ -42,7 +42,11 @@ CELL_CREATORS = {
     'MutRc::own', 'MutArc::own', 'From::from', 'complete_status',
 }
 
-CONTROLS = ['Z1|verif_controls::eager_builder', 'Z3|verif_controls::CountingOp']
+# trait methods that start or advance a user-supplied source when called on a generic argument
+START_CALLS = ('std::iter::IntoIterator::into_iter', 'std::future::IntoFuture::into_future', 'futures::StreamExt::next', 'futures::TryStreamExt::try_next',
+               'futures::FutureExt::shared', 'futures::FutureExt::now_or_never')
+
+CONTROLS = ['Z1|verif_controls::eager_builder', 'Z1|verif_controls::eager_iter_builder', 'Z3|verif_controls::CountingOp']
 
 
 def check(cx):
@@ -66,6 +70,8 @@ def _work(n):
         return 'polls a future'
     if n['name'] in ('std::time::Instant::now', 'std::time::Instant::elapsed'):
         return 'reads the clock'
+    if n['kind'] == 'call' and (n['name'] in START_CALLS or n['name'].startswith('std::iter::Iterator::')) and n.get('callee') and not n['callee'].get('res'):
+        return 'starts / advances a user-supplied source (%s on a generic argument)' % '::'.join(n['name'].rsplit('::', 2)[-2:])
     return None
 
 
@@ -86,7 +92,7 @@ def z1(cx):
             tag = roles.impl_tag(cx, im)
             if not im.get('trait') and (tag.endswith('Op') or tag.endswith('OpThreads') or tag.endswith('OP') or tag.endswith('OpThread')):
                 roots.append(fn)
-        elif cx.control and fn['key'].endswith('verif_controls::eager_builder'):
+        elif cx.control and fn['key'].endswith(('verif_controls::eager_builder', 'verif_controls::eager_iter_builder')):
             roots.append(fn)
     n = 0
     for fn in sorted(roots, key=lambda f: f['key']):
